@@ -40,6 +40,14 @@ Definition get_elem (s : setting) (idx : Z) : option nat :=
     if (0 <=? idx) && (idx <? Z.of_nat (length (s_kids s))) then Some (Z.to_nat idx) else None
   else None.
 
+(* p = c :: r with c = ch ?  (pattern tests on a literal byte, written with =? so that proofs can
+   case on the comparison) *)
+Definition strip_byte (ch : Z) (p : bytes) : option bytes :=
+  match p with
+  | c :: r => if c =? ch then Some r else None
+  | [] => None
+  end.
+
 (* The walker.  [cur] is the setting reached so far, [rel] the index path walked (reversed).
    Result: None = NULL, Some rel = the setting at that relative index path. *)
 Fixpoint walk (fuel : nat) (cur : setting) (rel : list nat) (p : bytes) : option (list nat) :=
@@ -50,12 +58,13 @@ Fixpoint walk (fuel : nat) (cur : setting) (rel : list nat) (p : bytes) : option
       | [] => match rel with [] => None | _ => Some (rev rel) end
       | c :: _ =>
           let p1 := if is_sep c then tl p else p in
-          match p1 with
-          | 91 :: p2 =>                                   (* '[' *)
+          match strip_byte 91 p1 with                    (* '[' *)
+          | Some p2 =>
               let '(index, q) := strtol10 p2 in
-              match q with
-              | 93 :: p3 =>                               (* ']' *)
-                  match get_elem cur (to_uint32 index) with
+              match strip_byte 93 q with                 (* ']' *)
+              | Some p3 =>
+                  match (if (index <? 0) || (4294967295 <? index) then None
+                         else get_elem cur index) with
                   | Some i =>
                       match nth_error (s_kids cur) i with
                       | Some k => walk fuel' k (i :: rel) p3
@@ -63,9 +72,9 @@ Fixpoint walk (fuel : nat) (cur : setting) (rel : list nat) (p : bytes) : option
                       end
                   | None => None
                   end
-              | _ => None
+              | None => None
               end
-          | _ =>
+          | None =>
               match s_ty cur with
               | TGroup =>
                   let '(nm, q) := span (fun c => negb (is_sep c)) p1 in
